@@ -3,7 +3,7 @@ model has.  Values stay symbolic (solver); these generators only widen the enume
 from fractions import Fraction as Fr
 
 from .dsl import (Con, C, X, U, Z, Pg, Vg, Q, t, T, t0, tf, DT, DTc, nl1, nl2, at_t0, at_tf, integral,
-                  integral_control, sum_, offset, PINF, NINF)
+                  integral_control, sum_, wsum, offset, PINF, NINF)
 from .families import rexpr, pdeg
 
 
@@ -57,6 +57,8 @@ def _fval(e, salt, dsalt, special):
             return h((op, a, ctx), dsalt if special(op, a, inside) else salt)
 
         def wrap(op, node):
+            if op == 'wsum':
+                return sum(float(w) * run(c_, ctx + (op, node.a[0], i_), True) for i_, (w, c_) in enumerate(zip(node.a[3], node.a[4:])))
             return run(node.a[0], ctx + (op, node.a[1:] and node.a[1]), inside or op != 'offset')
         from .dsl import ev
         return ev(e, leaf, D, wrap)
@@ -89,7 +91,7 @@ def signal_consistent(spec, e):
     def syntactic(e, inside=False):
         if not isinstance(e, E):
             return False
-        if e.op in ('at_t0', 'at_tf', 'integral', 'integral_control', 'sum'):
+        if e.op in ('at_t0', 'at_tf', 'integral', 'integral_control', 'sum', 'wsum'):
             return False
         if e.op == 'c':
             return False
@@ -238,8 +240,13 @@ def random_objective(rng, spec, method):
             term = integral(_must_contain(rng, sig, s['x'] + s['u'] + s['z'], 2, 3))
         elif r < 0.65:
             term = integral_control(_must_contain(rng, node, s['x'] + s['u'], 1, 2))
-        elif r < 0.85:
+        elif r < 0.78:
             term = sum_(_must_contain(rng, node, s['x'] + s['u'], 1, 2), include_last=rng.random() < 0.5)
+        elif r < 0.88:
+            # ONE ocp.sum / at_tf call on a row, column or matrix valued expression, then weighted
+            rows, cols = rng.choice([(1, 2), (2, 1), (2, 2), (1, 3), (3, 2)])
+            comps = [_must_contain(rng, node, s['x'] + s['u'], 1, 2) for _ in range(rows * cols)]
+            term = wsum(rng.choice(['sum', 'sum+', 'sum', 'at_tf']), rows, cols, [rng.choice([1, 2, -1, 3, Fr(1, 2)]) for _ in comps], comps)
         else:
             term = _bounded(rng, glob, 1, 2, nl=False)
         if rng.random() < 0.25:
